@@ -760,3 +760,110 @@ pub fn special_slippage(w: &World, s: &mut Src, _prof: &Profile, gs: &mut GenSta
 pub const GUARDED: Profile = Profile { name: "guarded", w: [5, 2, 16, 14, 2, 0, 3, 0, 0], adversarial_16: 0, funds_games_16: 0, max_pairs: 3, connected: false, hostile: false, special: Some(special_guarded) };
 pub const SLIPPAGE: Profile = Profile { name: "slippage", w: [16, 3, 10, 8, 3, 0, 2, 0, 0], adversarial_16: 0, funds_games_16: 0, max_pairs: 2, connected: false, hostile: false, special: Some(special_slippage) };
 pub const QUOTES: Profile = Profile { name: "quotes", w: [6, 3, 14, 12, 3, 0, 4, 0, 0], adversarial_16: 0, funds_games_16: 0, max_pairs: 3, connected: false, hostile: false, special: None };
+
+// ------------------------------------------------------------------------------------------------
+// router-centred generation (C11, C13)
+
+/// the same route message without a minimum_receive
+pub fn without_minimum(step: &Step) -> Step {
+    let mut st = step.clone();
+    match &mut st.call {
+        Call::Router { msg: RouterExec::ExecuteSwapOperations { minimum_receive, .. } } => *minimum_receive = None,
+        Call::Cw20 { msg: Cw20ExecuteMsg::Send { msg, .. }, .. } => {
+            if let Ok(RouterHook::ExecuteSwapOperations { operations, to, .. }) = cosmwasm_std::from_binary::<RouterHook>(msg) {
+                *msg = to_binary(&RouterHook::ExecuteSwapOperations { operations, minimum_receive: None, to }).unwrap();
+            }
+        }
+        _ => {}
+    }
+    st
+}
+
+/// what the recipient nets in the final asset: balance growth plus what it paid itself in that asset
+pub fn route_net_growth(rec: &StepRecord, ops: &[SwapOperation], delivered: &(AssetInfo, u128), sender: &str, receiver: &str) -> Option<i128> {
+    let last = ops.last()?;
+    let SwapOperation::HaloSwap { ask_asset_info, .. } = last;
+    let paid = if sender == receiver && delivered.0 == *ask_asset_info { delivered.1 as i128 } else { 0 };
+    Some(rec.delta(ask_asset_info, receiver) + paid)
+}
+
+pub fn special_routes(w: &World, s: &mut Src, prof: &Profile, gs: &mut GenState, kind: usize) -> Option<Step> {
+    if kind != 6 {
+        return None;
+    }
+    let distinct = s.chance(7, 8);
+    let hops = gen_route_ops(w, s, distinct);
+    let actor = w.actors[s.idx(w.actors.len())].to_string();
+    let amt = offer_amount(w, s, prof, hops[0].0, hops[0].1, &actor).max(1);
+    let to = match s.weighted(&[3, 1, 2, 2]) {
+        0 => None,
+        1 => Some(actor.clone()),
+        2 => Some(w.actors[s.idx(w.actors.len())].to_string()),
+        _ => Some(fresh_addr(s.idx(3)).to_string()),
+    };
+    // malformed shapes (must be rejected): empty, forked, disconnected
+    let shape = s.weighted(&[13, 1, 1, 1]);
+    if shape != 0 {
+        let mut ops = route_operations(w, &hops);
+        match shape {
+            1 => ops.clear(),
+            2 => {
+                // fork: a second hop from the same offer asset to a different ask
+                let all = w.all_assets();
+                let other = w.asset_info(all[s.idx(all.len())]);
+                if let Some(SwapOperation::HaloSwap { offer_asset_info, .. }) = ops.first().cloned() {
+                    ops.push(SwapOperation::HaloSwap { offer_asset_info, ask_asset_info: other });
+                }
+            }
+            _ => {
+                // a disconnected hop
+                let all = w.all_assets();
+                let a = w.asset_info(all[s.idx(all.len())]);
+                let b = w.asset_info(all[s.idx(all.len())]);
+                let at = s.idx(ops.len() + 1);
+                ops.insert(at, SwapOperation::HaloSwap { offer_asset_info: a, ask_asset_info: b });
+            }
+        }
+        let first = &w.pairs[hops[0].0].infos[hops[0].1];
+        let minimum_receive = if s.bool() { Some(Uint128::new(s.bits_u128(30))) } else { None };
+        return Some(match first {
+            AssetInfo::NativeToken { denom } => Step {
+                sender: actor,
+                call: Call::Router { msg: RouterExec::ExecuteSwapOperations { operations: ops, minimum_receive, to } },
+                funds: vec![Coin { denom: denom.clone(), amount: Uint128::new(amt) }],
+            },
+            AssetInfo::Token { contract_addr } => Step {
+                sender: actor,
+                call: Call::Cw20 {
+                    token: contract_addr.clone(),
+                    msg: Cw20ExecuteMsg::Send { contract: w.router.to_string(), amount: Uint128::new(amt), msg: to_binary(&RouterHook::ExecuteSwapOperations { operations: ops, minimum_receive, to }).unwrap() },
+                },
+                funds: vec![],
+            },
+        });
+    }
+    // reference delivery D: the same route without minimum_receive on a fork of this world
+    let plain = route_step(w, &actor, &hops, amt, None, to.clone());
+    let ops = route_operations(w, &hops);
+    let first = w.pairs[hops[0].0].infos[hops[0].1].clone();
+    let receiver = to.clone().unwrap_or_else(|| actor.clone());
+    let mut f = w.fork();
+    let rec = f.exec(plain);
+    let d = if rec.outcome.is_ok() { route_net_growth(&rec, &ops, &(first, amt), &actor, &receiver).map(|v| v.max(0) as u128) } else { None };
+    gs.route_reference = Some(d);
+    let minimum = match d {
+        Some(d) => match s.weighted(&[2, 3, 3, 3, 1, 1, 2]) {
+            0 => Some(0),
+            1 => Some(d.saturating_sub(1)),
+            2 => Some(d),
+            3 => Some(d.saturating_add(1)),
+            4 => Some(d.saturating_mul(2)),
+            5 => Some(s.bits_u128(100)),
+            _ => None,
+        },
+        None => if s.bool() { Some(s.bits_u128(40)) } else { None },
+    };
+    Some(route_step(w, &actor, &hops, amt, minimum, to))
+}
+
+pub const ROUTER: Profile = Profile { name: "router", w: [7, 2, 5, 4, 1, 0, 14, 0, 0], adversarial_16: 0, funds_games_16: 0, max_pairs: 5, connected: true, hostile: false, special: Some(special_routes) };
